@@ -52,3 +52,84 @@ def two_place_flips(rng, b, n=12):
     x = bytearray(b); x[0] ^= 1; x[L - 1] ^= 1; out.append(bytes(x))
     x = bytearray(b); x[0] = (x[0] + 1) & 0xff; x[1] = (x[1] - 1) & 0xff; out.append(bytes(x))
     return out
+
+# ---- dictionary harvested from the source under test -------------------------------------------------------------------------------
+_DICT = None
+def source_dictionary():
+    """(ints, byte_strings) that occur as literals in the non-test code of the crate AS IT IS NOW ($VERIF_REPO/src): a classic fuzzing
+    dictionary.  A branch on a magic value (one opcode, one size, a byte-order mark, a length limit) compares against a literal that is
+    in the source, so the generators mix these values — and their neighbours — into sizes, opcodes, PINs, seeds and file contents.
+    On the unchanged tree this adds the constants the code already has (40, 0x7FFF, 1024, 0x30 ...)."""
+    global _DICT
+    if _DICT is not None:
+        return _DICT
+    import os, re, glob
+    repo = os.environ.get("VERIF_REPO", "/repo")
+    ints, blobs = set(), set()
+    try:
+        from gen_constants import cut_tests, strip_comments
+    except Exception:
+        cut_tests = strip_comments = lambda s: s
+    for f in sorted(glob.glob(os.path.join(repo, "src", "**", "*.rs"), recursive=True)):
+        try:
+            src = cut_tests(strip_comments(open(f, errors="replace").read()))
+        except Exception:
+            continue
+        src = re.sub(r'"(?:[^"\\]|\\.)*"', '""', src)
+        for m in re.finditer(r"\[((?:\s*(?:0x[0-9a-fA-F_]+|\d[\d_]*)(?:_?u8)?\s*,){1,31}\s*(?:0x[0-9a-fA-F_]+|\d[\d_]*)(?:_?u8)?\s*,?\s*)\]", src):
+            try:
+                vals = [int(re.sub(r"_?u8$", "", t.strip()).replace("_", ""), 0) for t in m.group(1).split(",") if t.strip()]
+            except ValueError:
+                continue
+            if all(0 <= v <= 255 for v in vals) and 2 <= len(vals) <= 32:
+                blobs.add(bytes(vals))
+        for m in re.finditer(r"(?<![\w.])(0x[0-9a-fA-F_]+|\d[\d_]*)(?:_?(?:u8|u16|u32|u64|usize|i32|i64))?(?![\w.]*\w)", src):
+            try:
+                v = int(m.group(1).replace("_", ""), 0)
+            except ValueError:
+                continue
+            if 0 <= v < (1 << 64):
+                ints.add(v)
+    _DICT = (sorted(ints), sorted(blobs))
+    return _DICT
+
+def dict_ints(lo, hi):
+    """dictionary integers and their neighbours (v-1, v, v+1) inside [lo, hi]"""
+    out = set()
+    for v in source_dictionary()[0]:
+        for w in (v - 1, v, v + 1):
+            if lo <= w <= hi:
+                out.add(w)
+    return sorted(out)
+
+def new_literals():
+    """(ints, byte_strings) that are literals of the source as it is NOW but not of the tree the machinery was last validated against
+    (data/source_dictionary.json, written by `python3 tools/gen_util.py --write-baseline`): empty on the unchanged tree; after a change,
+    exactly the magic values the change introduced — the generators give them (and their neighbours) a large share of the picks."""
+    import os, json
+    p = os.path.join(os.path.dirname(os.path.dirname(os.path.abspath(__file__))), "data", "source_dictionary.json")
+    try:
+        base = json.load(open(p))
+    except Exception:
+        return ([], [])
+    ints, blobs = source_dictionary()
+    bi, bb = set(base.get("ints", [])), set(base.get("blobs", []))
+    return ([v for v in ints if v not in bi], [b for b in blobs if b.hex() not in bb])
+
+def new_ints(lo, hi):
+    out = set()
+    for v in new_literals()[0]:
+        for w in (v - 1, v, v + 1):
+            if lo <= w <= hi:
+                out.add(w)
+    return sorted(out)
+
+if __name__ == "__main__":
+    import sys, json, os
+    if "--write-baseline" in sys.argv:
+        ints, blobs = source_dictionary()
+        p = os.path.join(os.path.dirname(os.path.dirname(os.path.abspath(__file__))), "data", "source_dictionary.json")
+        json.dump(dict(ints=ints, blobs=[b.hex() for b in blobs]), open(p, "w"))
+        print("wrote", p, len(ints), "ints", len(blobs), "byte strings")
+    else:
+        print(new_literals())
